@@ -93,8 +93,14 @@ static double absoluteOffsetInverse(double offset,
 void ShapeRef::transformConnectionPinPositions(
         ShapeTransformationType transform)
 {
+    // The pin set is ordered by the offsets and visibility directions of 
+    // the pins, which are changed here, so take the pins out of the set 
+    // while changing them and put them back afterwards.
+    ShapeConnectionPinSet pins;
+    pins.swap(m_connection_pins);
+
     for (ShapeConnectionPinSet::iterator curr = 
-            m_connection_pins.begin(); curr != m_connection_pins.end(); ++curr)
+            pins.begin(); curr != pins.end(); ++curr)
     {
         ShapeConnectionPin *pin = *curr;
         double usingProportionalOffsets = pin->m_using_proportional_offsets;
@@ -219,6 +225,13 @@ void ShapeRef::transformConnectionPinPositions(
             if (visInDir[(rotationN + dirD) % 4])  visDirs |= ConnDirDown;
             if (visInDir[(rotationN + dirL) % 4])  visDirs |= ConnDirLeft;
         }
+    }
+    m_connection_pins.insert(pins.begin(), pins.end());
+
+    for (ShapeConnectionPinSet::iterator curr = 
+            m_connection_pins.begin(); curr != m_connection_pins.end(); ++curr)
+    {
+        ShapeConnectionPin *pin = *curr;
         pin->updatePositionAndVisibility();
         m_router->modifyConnectionPin(pin);
     }
